@@ -50,7 +50,7 @@ func (p *Path) IsNil(v ssa.Value) (isNil, known bool) {
 	if c, isC := r.(*ssa.Const); isC {
 		return c.Value == nil && isNillable(c.Type()), true
 	}
-	if nonNilByConstruction(r) {
+	if nonNilByConstruction(r) || p.wrapsNonNil(r, 0) {
 		return false, true
 	}
 	n, ok := p.isnil[p.canonOf(r)]
@@ -516,7 +516,7 @@ func (p *Path) Eval(v ssa.Value) (val, ok bool) {
 				if oc, isC := o.(*ssa.Const); isC && oc.Value == nil {
 					return x.Op == token.EQL, true
 				}
-				if nonNilByConstruction(o) {
+				if nonNilByConstruction(o) || p.wrapsNonNil(o, 0) {
 					return x.Op == token.NEQ, true
 				}
 				if n, ok := p.isnil[p.canon(o)]; ok {
@@ -1167,6 +1167,101 @@ func stableFieldLoad(ld *ssa.UnOp) (string, bool) {
 		}
 	}
 	return fmt.Sprintf("stable(%s@%p%s)", par.Name(), par, key), true
+}
+
+// nilOnlyForNilArg: g has one result and returns nil only when its k-th parameter is nil. Read off g's
+// body, nothing is assumed about a name: the entry block tests the parameter against nil, the side taken for
+// nil is entered over that edge only, and every return outside the part that side dominates yields a value
+// that is non-nil by construction (an error wrapper such as `if err == nil { return nil }; return &Traced{…}`).
+var nilOnlyCache = map[*ssa.Function]int{}
+
+func nilOnlyForNilArg(g *ssa.Function) (int, bool) {
+	if k, ok := nilOnlyCache[g]; ok {
+		return k, k >= 0
+	}
+	nilOnlyCache[g] = -1
+	if len(g.Blocks) == 0 || g.Signature.Results().Len() != 1 || g.Recover != nil {
+		return -1, false
+	}
+	entry := g.Blocks[0]
+	iff, ok := entry.Instrs[len(entry.Instrs)-1].(*ssa.If)
+	if !ok {
+		return -1, false
+	}
+	cmp, ok := iff.Cond.(*ssa.BinOp)
+	if !ok || (cmp.Op != token.EQL && cmp.Op != token.NEQ) {
+		return -1, false
+	}
+	par, other := cmp.X, cmp.Y
+	if _, isP := par.(*ssa.Parameter); !isP {
+		par, other = other, par
+	}
+	pv, isP := par.(*ssa.Parameter)
+	oc, isC := other.(*ssa.Const)
+	if !isP || !isC || oc.Value != nil || !isNillable(pv.Type()) {
+		return -1, false
+	}
+	k := -1
+	for i, q := range g.Params {
+		if q == pv {
+			k = i
+		}
+	}
+	nilSide := entry.Succs[0]
+	if cmp.Op == token.NEQ {
+		nilSide = entry.Succs[1]
+	}
+	if k < 0 || len(nilSide.Preds) != 1 || nilSide == entry.Succs[0] && nilSide == entry.Succs[1] {
+		return -1, false
+	}
+	for _, b := range g.Blocks {
+		if len(b.Instrs) == 0 {
+			continue
+		}
+		ret, isRet := b.Instrs[len(b.Instrs)-1].(*ssa.Return)
+		if !isRet || b == nilSide || nilSide.Dominates(b) {
+			continue
+		}
+		if len(ret.Results) != 1 || !nonNilByConstruction(ret.Results[0]) {
+			return -1, false
+		}
+	}
+	nilOnlyCache[g] = k
+	return k, true
+}
+
+// wrapsNonNil: v is a call of a function of the module that returns nil only for a nil argument, and the
+// argument is non-nil on this path.
+func (p *Path) wrapsNonNil(v ssa.Value, depth int) bool {
+	for i := 0; i < 4; i++ {
+		switch x := v.(type) {
+		case *ssa.MakeInterface:
+			v = x.X
+			continue
+		case *ssa.ChangeInterface:
+			v = x.X
+			continue
+		}
+		break
+	}
+	c, ok := v.(*ssa.Call)
+	if !ok || depth > 3 {
+		return false
+	}
+	g := c.Call.StaticCallee()
+	if g == nil || g.Pkg == nil || !strings.HasPrefix(g.Pkg.Pkg.Path(), ModulePath) {
+		return false
+	}
+	k, ok := nilOnlyForNilArg(g)
+	if !ok || k >= len(c.Call.Args) {
+		return false
+	}
+	arg := p.resolve0(c.Call.Args[k])
+	if nonNilByConstruction(arg) || p.wrapsNonNil(arg, depth+1) {
+		return true
+	}
+	n, known := p.isnil[p.canonOf(arg)]
+	return known && !n
 }
 
 // nonNilByConstruction: calls that never return nil.
